@@ -52,8 +52,9 @@ CHECKS = {
     "C09": dict(cat="proof", tech="Lean 4: theorems about the block-cutting model for all streams and tables (contiguous, non-overlapping, gap-free); tables regenerated from source; model and interpreter-metadata specification compared with the real front end on a stdlib corpus under 3.12 and 3.11",
                 text="Scfg.C09.getInstructions_spec / getInstrs_sorted prove that the model of get_instructions returns exactly the known offsets of [begin, end), each once (compared with the real method for every block). "
                      "Scfg.C09.ranges_chain / ranges_cover / fromBytecode_nodup / blockRanges_strict prove, for every instruction stream and every opcode table, that the model of build_basicblocks cuts the stream into contiguous, non-overlapping, gap-free ranges. "
+                     "Scfg.C09.buildBlocks_total (Props/C09Total.lean) proves 'building the graph never fails' for the model: for every stream and every table whose last instruction is classified (return or jump - evaluated per function in the evidence), every name lookup of build_basicblocks succeeds (invariant: every recorded jump target is a block start). "
                      "The opcode tables are regenerated from /repo on every run and passed to the model; real FlowInfo/build_basicblocks output is compared with the model exactly and with Lean specBlocks (leaders and successors from the interpreter's own opcode metadata) on ~1 900 functions per interpreter.", ref="§7 C09",
-                note="Trusted: Lean kernel + standard axioms; dis (is_jump_target, argval); the opcode truth-class rule; successor exactness and totality are per-function on the corpus, not an a-priori theorem."),
+                note="Trusted: Lean kernel + standard axioms; dis (is_jump_target, argval); the opcode truth-class rule; successor exactness against the interpreter's metadata is per-function on the corpus, not an a-priori theorem."),
     "C11": dict(cat="proof", tech="Lean 4: theorem transform_refuses for all programs and any dispatcher data satisfying the decidable dispatchOK, evaluated on data regenerated from handle_ast_node/handle_function_def and the interpreter's ast classes; every unsupported class × position through the real AST2SCFG",
                 text="Scfg.C11.transform_refuses is proved by mutual structural induction over arbitrary statement trees: any unsupported statement at any depth makes the model of the transformer raise not-implemented, for ANY dispatcher data passing dispatchOK. "
                      "The translator regenerates that data (isinstance chain, fallback arm, nested-definition guard, statement classes and MROs of the running interpreter) on every run; dispatchOK and its offender list are evaluated on it, "
